@@ -201,6 +201,11 @@ impl<FB: FrameBuffer> ZXScreen<FB> {
         self.frame_counter += 1;
     }
 
+    /// Starts rendering of the current frame over (frame clock was moved by a snapshot loader)
+    pub fn restart_frame(&mut self) {
+        self.last_blocks = BlocksCount::new(0, 0);
+    }
+
     /// Updates data if screen ram
     pub fn update(&mut self, rel_addr: u16, bank: usize, data: u8) {
         if let Some(bank) = self.local_bank(bank) {
